@@ -177,9 +177,14 @@ def stable_inputs_rule(ctx, rule, F, cursor):
             tgt = strip(tgt["c"][0])
         if tgt["k"] == "DeclRefExpr" and tgt["name"] in names:
             written.setdefault(tgt["name"], []).append(n["l"][0])
-    ctx.ob(rule + "i", "%s: inputs of the paired size / write calls" % F.name, "what the size pass and the write pass hand to the helpers is not "
-           "modified between the two passes (otherwise the same expression may select a different, longer encoding when writing than "
-           "was counted)", not written, {"inputs": sorted(names), "written_between_passes": written})
+    if written:
+        # not a violation in itself (a cache filled during the size pass and read in the write pass can be correct) but the pairing
+        # "same expression, same meaning" is gone: no verdict from this rule
+        ctx.floor_failures.append("%si: %s: the inputs %s of the paired size / write calls are modified between the two passes (lines %s); "
+                                  "the size pass and the write pass cannot be paired, no verdict" % (rule, F.name, sorted(written), written))
+    else:
+        ctx.ob(rule + "i", "%s: inputs of the paired size / write calls" % F.name, "what the size pass and the write pass hand to the helpers is "
+               "not modified between the two passes", True, {"inputs": sorted(names)})
 
 
 def pair_rule(ctx, rule, Fs, svar, Fw, cursor, init_size, what, strcpy_slack=False):
@@ -195,6 +200,11 @@ def pair_rule(ctx, rule, Fs, svar, Fw, cursor, init_size, what, strcpy_slack=Fal
                 f = canon(x["c"][0], local_env(Fs))
                 if f is not None:
                     sadv[cx] = f
+                if Fs is not Fw and cx not in wadv and cx not in wwr and not (strcpy_slack and cx[-1][0] == "if" and "should_escape" in cx[-1][1]):
+                    # the size function answers early under a condition the writer does not have: what it returns there would have
+                    # to cover everything the writer's loops can produce, which per-context comparison cannot establish
+                    ctx.floor_failures.append("%s: %s returns early under `%s`, a case the writer %s does not distinguish; the size pass and "
+                                              "the write pass cannot be paired, no verdict" % (rule, Fs.name, cx[-1][1][:50], Fw.name))
     contexts = set(sadv) | set(wadv) | set(wwr) | set(wtail)
     if not (set(wadv) | set(wwr)) <= set(sadv) | {()}:
         missing = sorted((set(wadv) | set(wwr)) - set(sadv) - {()}, key=str)
@@ -302,8 +312,25 @@ def parent_block_rule(ctx, prog):
            "start to the next)", not bad, {"objects": bad[:5]})
 
 
+def shift_rules(ctx, prog):
+    """Z8: a shift by at least the width of its (promoted) left operand is undefined; on the usual targets it wraps, so a bit mask
+    indexed by an argument position silently aliases positions 32 apart"""
+    from .. import tablebounds as TB
+    for F in prog.funcs_all:
+        if not F.file.startswith(prog.root):
+            continue
+
+        def report(node, ok, det, F=F):
+            if ok is None:
+                return
+            ctx.ob("C18.Z8", "%s:%d %s" % (F.name, node["l"][0], expr_str(node)[:40]), "the shift amount stays below the width of the shifted "
+                   "operand for every argument count", ok, det)
+        TB.check_shifts(prog, F, report)
+
+
 def check(ctx):
     prog = win_prog(ctx)
+    shift_rules(ctx, prog)
     quoting_decision_rules(ctx, prog)
     parent_block_rule(ctx, prog)
     # ---- Z1 argument_escaped_size / argument_escape
